@@ -93,8 +93,10 @@ def machine_spec(
             cbs.append(c)
 
     def provs_for(att, allow_late=True):
-        if att == "func":
+        if att in ("func", "partial"):
             return ["free"]
+        if att == "bound":
+            return ["ext"]
         if att == "deco":
             return ["machine"]
         pool = list(providers) if (att == "conv" and allow_late) else ctor_provs
@@ -106,7 +108,7 @@ def machine_spec(
         for k, t in enumerate(trans):
             if draw(st.integers(0, 9)) < 2:
                 for j in range(draw(st.integers(1, 2))):
-                    att = draw(st.sampled_from([a for a in attach if a in ("name", "func", "deco")] or ["name"]))
+                    att = draw(st.sampled_from([a for a in attach if a in ("name", "func", "deco", "partial", "bound")] or ["name"]))
                     add(f"v{k}_{j}", "validators", ["trans", [k]], att, provs_for(att))
     if actions:
         conv = "conv" in attach
@@ -196,8 +198,10 @@ def machine_spec(
             c["async"] = c["prov"] in late
     if any(c["async"] for c in everything):
         for c in cbs:
-            if c["sends"]:
-                c["async"] = True  # a plain function cannot await the nested send of an async machine (K7)
+            # a plain function cannot await the nested send of an async machine (its return value is finding K7); the
+            # event itself must still be queued and processed, so a minority of plain senders is kept
+            if c["sends"] and draw(st.integers(0, 9)) < 7:
+                c["async"] = True
         for c in cbs:
             if c["async"]:
                 c["yields"] = draw(st.sampled_from([0, 0, 1, 2]))
@@ -212,7 +216,7 @@ def machine_spec(
 
 def is_async_spec(spec, providers=None):
     def att(d):
-        return providers is None or d["prov"] in providers or d["prov"] in ("machine", "free")
+        return providers is None or d["prov"] in providers or d["prov"] in ("machine", "free", "ext")
 
     return any(c.get("async") and att(c) for c in spec["cbs"]) or any(g.get("async") and att(g) for g in spec.get("guards", []))
 
